@@ -313,8 +313,8 @@ var tmpCleanCtors = []struct{ fn, field string }{
 func ruleTmpClean() *Rule {
 	return &Rule{
 		ID: "TMP-CLEAN",
-		Text: "NewLog, NewStateStorage and NewSnapshotStorage call fileutil.RemoveTmpFiles on the directory they store in the returned object " +
-			"(or an ancestor of it) on every path to a return of a non-nil storage, with the call's error known nil there; on its failure they return a nil storage and a non-nil error.",
+		Text: "NewLog, NewStateStorage and NewSnapshotStorage call fileutil.RemoveTmpFiles on exactly the directory they store in the returned object " +
+			"(not on an ancestor: the helper also tests the name of the directory it is given) on every path to a return of a non-nil storage, with the call's error known nil there; on its failure they return a nil storage and a non-nil error.",
 		Floor: 3,
 		Run: func(p *Program) []Obligation {
 			obs := newObSet("TMP-CLEAN")
@@ -394,7 +394,9 @@ func tmpClean(p *Program, obs *obSet, fname, fieldSpec string) {
 				rel = "the cleaned directory is the value stored in " + fieldSpec
 			default:
 				if es, ef := joinElems(v.Fr, dir); es != nil && resolve(ef, es[0]) == arg {
-					rel = "the cleaned directory is the first path element of the value stored in " + fieldSpec
+					obs.fail(keyClean, p.InstrPos(c.call), "the directory handed to RemoveTmpFiles is an ANCESTOR of the one stored in "+fieldSpec+" (the caller's path): RemoveTmpFiles also tests the NAME of the directory it is given and removes whatever below it starts with \"tmp\" — "+
+						"a data directory called tmp…, or created by os.MkdirTemp, is deleted whole (state file, log, every snapshot) by the constructor, and the temporaries of the sibling storages go with it", nil, "argument: "+describe(c.fr, arg), "stored: "+describe(v.Fr, dir))
+					return v.St, true
 				}
 			}
 			if rel == "" {
